@@ -24,9 +24,9 @@ Lemma relu_derive x : x <> 0 -> is_derive wrap_relu_out x (wrap_relu_grad_x 1 x)
 Proof.
   intros Hx. unfold wrap_relu_out, wrap_relu_grad_x, relu_forward, relu_backward.
   destruct (Rlt_dec 0 x) as [Hp|Hn].
-  - rewrite ind_gt_true by auto. apply (is_derive_on_pos _ (fun y => y)); auto.
+  - ind_simpl. apply (is_derive_on_pos _ (fun y => y)); auto.
     intros y Hy. rewrite Rmax_right; lra. auto_derive; auto. ring.
-  - rewrite ind_gt_false by lra. apply (is_derive_on_neg _ (fun y => 0)). lra.
+  - ind_simpl. apply (is_derive_on_neg _ (fun y => 0)). lra.
     intros y Hy. rewrite Rmax_left; lra. auto_derive; auto. ring.
 Qed.
 Lemma relu_linear g x : wrap_relu_grad_x g x = g * wrap_relu_grad_x 1 x.
@@ -40,45 +40,35 @@ Proof.
     + intros y Hy. rewrite Rmax_right; lra.
     + apply d_const.
     + apply d_id.
-  - unfold between, wrap_relu_grad_x, relu_backward. rewrite ind_gt_false by lra.
-    rewrite Rmin_left, Rmax_right by lra. lra.
+  - unfold between, wrap_relu_grad_x, relu_backward. rewrite Rmin_left, Rmax_right by lra.
+    unfold ind_gt, ind_ge; repeat match goal with |- context [if ?d then _ else _] => destruct d end; lra.
 Qed.
 
-(* ---- leaky_relu: forward is max(s*x, x), which is the leaky relu only for slopes s <= 1 -------------- *)
-Lemma leaky_relu_derive x s : s <= 1 -> x <> 0 ->
+(* ---- leaky_relu: forward is where(x > 0, x, s*x), any slope s ------------------------------------------- *)
+Lemma leaky_relu_derive x s : x <> 0 ->
   is_derive (fun t => wrap_leaky_relu_out t s) x (wrap_leaky_relu_grad_x 1 x s).
 Proof.
-  intros Hs Hx. unfold wrap_leaky_relu_out, wrap_leaky_relu_grad_x, leaky_relu_forward, leaky_relu_backward.
+  intros Hx. unfold wrap_leaky_relu_out, wrap_leaky_relu_grad_x, leaky_relu_forward, leaky_relu_backward.
   destruct (Rlt_dec 0 x) as [Hp|Hn].
-  - rewrite ind_gt_true, ind_le_false by lra. apply (is_derive_on_pos _ (fun y => y)); auto.
-    intros y Hy. rewrite Rmax_right; nra. auto_derive; auto. ring.
-  - rewrite ind_gt_false, ind_le_true by lra. apply (is_derive_on_neg _ (fun y => s * y)). lra.
-    intros y Hy. rewrite Rmax_left; nra. auto_derive; auto. ring.
+  - ind_simpl. apply (is_derive_on_pos _ (fun y => y)); auto.
+    intros y Hy. now ind_simpl. auto_derive; auto. ring.
+  - ind_simpl. apply (is_derive_on_neg _ (fun y => s * y)). lra.
+    intros y Hy. now ind_simpl. auto_derive; auto. ring.
 Qed.
 Lemma leaky_relu_linear g x s : wrap_leaky_relu_grad_x g x s = g * wrap_leaky_relu_grad_x 1 x s.
 Proof. unfold wrap_leaky_relu_grad_x, leaky_relu_backward. ring. Qed.
-Lemma leaky_relu_subgradient_at_0 s : s <= 1 ->
+Lemma leaky_relu_subgradient_at_0 s :
   one_sided_at_0 (fun t => wrap_leaky_relu_out t s) s 1 /\ between s 1 (wrap_leaky_relu_grad_x 1 0 s).
 Proof.
-  intros Hs. split.
+  split.
   - exists (fun y => s * y), (fun y => y). unfold wrap_leaky_relu_out, leaky_relu_forward. split; [|split; [|split]].
-    + intros y Hy. rewrite Rmax_left; nra.
-    + intros y Hy. rewrite Rmax_right; nra.
+    + intros y Hy. now ind_simpl.
+    + intros y [Hy|Hy]. now ind_simpl. subst. ind_simpl. ring.
     + apply d_lin.
     + apply d_id.
-  - unfold between, wrap_leaky_relu_grad_x, leaky_relu_backward. rewrite ind_gt_false, ind_le_true by lra.
-    rewrite Rmin_left, Rmax_right by lra. lra.
-Qed.
-(* for a slope above 1 the computed forward max(s*x, x) has slope s on the positive side but the backward
-   kernel returns 1 there: the backward is not the derivative of the computed function *)
-Lemma leaky_relu_slope_gt_1_refuted :
-  exists x s, 1 < s /\ x <> 0 /\ is_derive (fun t => wrap_leaky_relu_out t s) x 2 /\ wrap_leaky_relu_grad_x 1 x s = 1.
-Proof.
-  exists 1, 2. split; [lra|split; [lra|split]].
-  - unfold wrap_leaky_relu_out, leaky_relu_forward.
-    apply (is_derive_on_pos _ (fun y => 2 * y)). lra.
-    intros y Hy. rewrite Rmax_left; lra. auto_derive; auto. ring.
-  - unfold wrap_leaky_relu_grad_x, leaky_relu_backward. rewrite ind_gt_true, ind_le_false by lra. ring.
+  - unfold between, wrap_leaky_relu_grad_x, leaky_relu_backward.
+    pose proof (Rmin_l s 1). pose proof (Rmin_r s 1). pose proof (Rmax_l s 1). pose proof (Rmax_r s 1).
+    unfold ind_gt, ind_ge, ind_lt, ind_le; repeat match goal with |- context [if ?d then _ else _] => destruct d end; lra.
 Qed.
 
 (* ---- selu ------------------------------------------------------------------------------------------------ *)
@@ -87,11 +77,11 @@ Lemma selu_kernel_derive x alpha scale : 0 < alpha -> x <> 0 ->
 Proof.
   intros Ha Hx. unfold selu_forward, selu_backward.
   destruct (Rlt_dec 0 x) as [Hp|Hn].
-  - rewrite ind_gt_true, where_1 by lra. apply (is_derive_on_pos _ (fun y => scale * y)); auto.
+  - ind_simpl. apply (is_derive_on_pos _ (fun y => scale * y)); auto.
     + intros y Hy. rewrite Rmax_right by lra. rewrite Rmin_left. ring.
       assert (1 < exp y) by (rewrite <- exp_0; now apply exp_increasing). nra.
     + auto_derive; auto. ring.
-  - rewrite ind_gt_false, where_false by lra. rewrite Rmin_left by lra.
+  - ind_simpl. rewrite Rmin_left by lra.
     apply (is_derive_on_neg _ (fun y => scale * (alpha * (exp y - 1)))). lra.
     + intros y Hy. rewrite Rmax_left by lra. rewrite Rmin_right. ring.
       assert (exp y < 1) by (rewrite <- exp_0; now apply exp_increasing). nra.
@@ -123,7 +113,7 @@ Proof.
       assert (1 <= exp y). { rewrite <- exp_0. destruct Hy as [Hy|Hy]. left. now apply exp_increasing. subst. lra. } nra.
     + auto_derive; auto. rewrite exp_0. ring.
     + auto_derive; auto. ring.
-  - unfold between, wrap_selu_grad_x, selu_backward. rewrite ind_gt_false, where_false by lra.
+  - unfold between, wrap_selu_grad_x, selu_backward. ind_simpl.
     rewrite (Rmin_left 0 0) by lra. rewrite exp_0.
     replace (wrap_selu_scale * 1 * (wrap_selu_alpha * 1)) with (wrap_selu_scale * wrap_selu_alpha) by ring.
     split. apply Rmin_l. apply Rmax_l.
@@ -287,9 +277,9 @@ Proof.
   unfold wrap_binary_cross_entropy_with_logits_grad_y_pred, bce_with_logits_loss_backward, sigmoid. cbv zeta.
   assert (0 < exp x) by apply exp_pos. assert (0 < exp (- x)) by apply exp_pos.
   destruct (Rle_dec 0 x) as [Hp|Hn].
-  - rewrite ind_ge_true, where_1 by lra. rewrite Rabs_right by lra.
+  - ind_simpl. rewrite Rabs_right by lra.
     rewrite exp_Ropp. f_equal. f_equal. field. lra.
-  - rewrite ind_ge_false, where_false by lra. rewrite Rabs_left by lra. now rewrite Ropp_involutive.
+  - ind_simpl. rewrite Rabs_left by lra. now rewrite Ropp_involutive.
 Qed.
 
 Lemma softplus_derive_x x y : is_derive (fun t => softplus_loss t y) x (sigmoid x - y).
